@@ -124,6 +124,17 @@ def step' (d : DSt) (toks0 : List String) : DSt × String :=
       let s' := runActs d.cfg d.st (acts.filterMap parseAct)
       ({ d with st := s' }, "conc | " ++ dumpConc s' ++ " ## conc:linearised")
     | _ => (d, "conc")
+  | ["set", what, v] =>
+    -- a public attribute re-assigned on the live object: later calls run under the new configuration (`runC`)
+    let cfg' : Option Cfg := match what with
+      | "maxq" => some { d.cfg with maxQ := (intD v).toNat }
+      | "thr" => some { d.cfg with autoThr := (intD v).toNat }
+      | "ret" => some { d.cfg with retention := intD v }
+      | "ontox" => some { d.cfg with onToxic := if v = "set" then some (fun it => it.content != 0) else none }
+      | _ => none
+    match cfg' with
+    | none => (d, "bad-op")
+    | some c => if d.st.dead then (d, "dead") else ({ d with cfg := c }, "ok | " ++ dump d.st ++ " ## set:" ++ what)
   | ["ingest", ty, id, c] => doOp d (.ingest (natD id) (tyOf ty) (natD c) .now)
   | ["ingestat", st, ty, id, c] =>
     doOp d (.ingest (natD id) (tyOf ty) (natD c) (if st = "aware" then .aware else .at (intD st)))
